@@ -57,6 +57,9 @@ class NodeModel:
             sl = ann.slice
             if head == 'Optional':
                 return self.parse_ann(sl)
+            if head == 'Union' and isinstance(sl, ast.Tuple):
+                parts = [self.parse_ann(x) for x in sl.elts if not (isinstance(x, ast.Constant) and x.value is None)]
+                return '|'.join(sorted(set(parts))) if parts and '?' not in parts else '?'
             if head in ('List', 'list', 'Sequence', 'MutableSequence'):
                 return f'list[{self.parse_ann(sl)}]'
             if head in ('Dict', 'dict', 'Mapping') and isinstance(sl, ast.Tuple) and len(sl.elts) == 2:
@@ -64,6 +67,9 @@ class NodeModel:
             if head in self.classes:      # ElementaryNode[str]
                 return head
             return '?'
+        if isinstance(ann, ast.BinOp) and isinstance(ann.op, ast.BitOr):
+            parts = [self.parse_ann(x) for x in (ann.left, ann.right) if not (isinstance(x, ast.Constant) and x.value is None)]
+            return '|'.join(sorted(set(parts))) if parts and '?' not in parts else '?'
         n = attr_chain(ann)
         if n is None:
             return '?'
@@ -136,7 +142,7 @@ class Typer:
             return {'?'}
         if isinstance(e, ast.Name):
             if e.id in self.params:
-                return {self.model.parse_ann(self.params[e.id])}
+                return set(self.model.parse_ann(self.params[e.id]).split('|'))
             out: T.Set[str] = set()
             for kind, v in self.defs.get(e.id, []):
                 if kind == 'val':
